@@ -131,10 +131,36 @@ def refit_vs_fresh(scn):
 
 # ------------------------------------------------------------------ C09 predict = argmax of expectations
 
+def cold_first_scenario(rng, g):
+    """an arm listed first is never observed, then warm started from a later arm (ties with its source)"""
+    arms = g.arms
+    others = arms[1:]
+    n = rng.choice([3, 5, 8])
+    d = [rng.choice(others) for _ in range(n)]
+    sign = rng.choice([1, 1, -1])
+    r = [sign * abs(G.gen_reward(rng, g.lpk, g.binz)) if g.lpk != "thompson" else rng.choice([0, 1]) for _ in range(n)]
+    c = [G.gen_row(rng, g.d) for _ in range(n)] if g.contextual else None
+    dim = 2
+    feats = [[a, [float(rng.randint(-3, 3)) for _ in range(dim)]] for a in arms]
+    feats[0][1] = list(feats[rng.randrange(1, len(arms))][1])       # duplicate vector: distance 0 to its source
+    if all(x == 0 for x in feats[0][1]):
+        feats[0][1] = [1.0, 2.0]
+        feats[1][1] = [1.0, 2.0]
+    ops = [{"op": "fit", "d": d, "r": r, "c": c}, {"op": "warm", "feats": feats, "q": 1.0}]
+    g.stored = list(c or [])
+    g.fitted = True
+    return ops
+
+
 def gen_c09(seed, index):
     prof = {"name": "C09", "lp": ALL_LP, "np": [None, None] + G.NP_KINDS,
             "weights": {"fit": 1, "pfit": 3, "query": 1, "add": 1.5, "rem": 1, "warm": 0.5}, "end_query": False}
     rng, g = _gen(seed, index, prof)
+    if g.npk is None and g.lpk in G.WARM_OK and len(g.arms) >= 2 and rng.random() < 0.3:
+        ops = cold_first_scenario(rng, g)
+        g.ops = []
+        g.op_query("pexp")
+        return {"cfg": g.cfg, "ops": ops, "queries": g.ops}
     # exact ties on purpose: equal rewards for all arms in some scenarios
     scn = g.build()
     if rng.random() < 0.3:
@@ -142,8 +168,15 @@ def gen_c09(seed, index):
             if op["op"] in ("fit", "pfit"):
                 op["r"] = [1 for _ in op["r"]]
     g.ops = []
+    # often finish the history with an arm change and a warm start right before the queries
+    if g.npk is None and rng.random() < 0.5:
+        if rng.random() < 0.7:
+            g.op_add()
+        g.op_warm()
+    tail = g.ops
+    g.ops = []
     g.op_query("pexp")
-    return {"cfg": scn["cfg"], "ops": scn["ops"], "queries": g.ops}
+    return {"cfg": scn["cfg"], "ops": scn["ops"] + tail, "queries": g.ops}
 
 
 def argmax_first(d):
@@ -509,4 +542,267 @@ def warm_start_laws(scn):
             return "cold arms at quantile %r (%r) not a subset of those at quantile %r (%r)" % (q, sorted(cold), prev[0], sorted(prev[1]))
         prev = (q, cold)
     # trained arms keep their learned state: train-free continuation on a deterministic policy
+    return None
+
+
+# ------------------------------------------------------------------ C03 / C11 / C12: neighbourhood = oracle-selected rows
+
+DET_LP = ["greedy0", "ucb", "linucb", "lingreedy0"]
+
+
+def _det_lp(rng, linear_ok=True):
+    k = rng.choice(DET_LP if linear_ok else DET_LP[:2])
+    if k == "greedy0":
+        return {"k": "greedy", "eps": 0.0}
+    if k == "ucb":
+        return {"k": "ucb", "alpha": rng.choice([0.0, 0.5, 1.0])}
+    if k == "linucb":
+        return {"k": "linucb", "alpha": rng.choice([0.0, 0.5, 1.0]), "lam": rng.choice([1.0, 1.0, 2.0, 0.5])}
+    return {"k": "lingreedy", "eps": 0.0, "lam": rng.choice([1.0, 2.0, 0.5])}
+
+
+def gen_nhood(seed, index, np_kinds, name):
+    prof = {"name": name, "lp": ["greedy"], "np": np_kinds,
+            "weights": {"fit": 1, "pfit": 3, "query": 3, "add": 1, "rem": 0.5, "warm": 0}, "n_ops": (2, 7),
+            "unknown_labels": False}
+    rng, g = _gen(seed, index, prof)
+    g.cfg["lp"] = _det_lp(rng, linear_ok=(g.npk != "tree"))
+    g.lpk = g.cfg["lp"]["k"]
+    if g.npk == "radius" and rng.random() < 0.5:
+        g.cfg["np"]["probs"] = None
+    if g.npk == "lsh":
+        # hashing is partitioned among workers too
+        g.cfg["n_jobs"] = rng.choice([1, 2, 3])
+        g.cfg["backend"] = "threading"
+    scn = g.build()
+    return scn
+
+
+def _train_rows(scn, purge_on_remove=False):
+    """the rows the bandit has stored after the history (fit replaces, partial_fit appends);
+    TreeBandit drops an arm's tree and rewards on remove_arm (purge_on_remove)"""
+    d, r, c = [], [], []
+    fitted = False
+    for op in scn["ops"]:
+        if op["op"] == "fit" or (op["op"] == "pfit" and not fitted):
+            d, r, c = list(op["d"]), list(op["r"]), list(op["c"])
+            fitted = True
+        elif op["op"] == "pfit":
+            d += list(op["d"])
+            r += list(op["r"])
+            c += list(op["c"])
+        elif op["op"] == "rem" and purge_on_remove:
+            keep = [i for i in range(len(d)) if d[i] != op["arm"]]
+            d, r, c = [d[i] for i in keep], [r[i] for i in keep], [c[i] for i in keep]
+    return d, r, c
+
+
+def readds_label(scn):
+    removed = set()
+    for op in scn["ops"]:
+        if op["op"] == "rem" and not isinstance(op["arm"], dict):
+            removed.add(repr(op["arm"]))
+        elif op["op"] == "add" and repr(op["arm"]) in removed:
+            return True
+    return False
+
+
+def _fresh_expectations(cfg, arms, d, r, c, query):
+    """expectations of the learning policy trained from scratch on exactly these rows"""
+    from mabwiser.mab import MAB
+    lp = S.make_lp(cfg["lp"], cfg.get("binz"))
+    m = MAB(list(arms), lp, None, seed=cfg.get("seed", 1))
+    if T.is_linear(cfg):
+        m.fit(d, r, c)
+        return T.canon(m.predict_expectations([query]))
+    m.fit(d, r)
+    return T.canon(m.predict_expectations())
+
+
+def _dist(metric, x, y):
+    from scipy.spatial.distance import cdist
+    return float(cdist(np.asarray([x], dtype=float), np.asarray([y], dtype=float), metric=metric)[0][0])
+
+
+@twin("nhood_vs_fresh_policy")
+@T.quiet
+def nhood_vs_fresh_policy(scn):
+    """Radius / KNearest: expectations = learning policy trained from scratch on exactly the stored
+    rows within the radius (boundary included) resp. the k nearest rows (any valid tie-break)"""
+    cfg = scn["cfg"]
+    npc = cfg["np"]
+    T.register_labels(scn)
+    a = S.make_mab(cfg)
+    hist_ops = []
+    for op in scn["ops"]:
+        if op["op"] not in ("pexp", "pred"):
+            T.apply_op(a, op)
+            hist_ops.append(op)
+            continue
+        if not a._is_initial_fit:
+            continue
+        d, r, c = _train_rows({"ops": hist_ops})
+        b = copy.deepcopy(a)
+        res = T.apply_op(b, op)
+        if res[0] != "ok":
+            return "query raised %r" % (res,)
+        rows = res[1] if (op["c"] and len(op["c"]) > 1) else [res[1]]
+        arms = list(a.arms)
+        for qi, q in enumerate(op["c"]):
+            dists = [_dist(npc["metric"], x, q) for x in c]
+            if npc["k"] == "radius":
+                idx_sets = [[i for i, dd in enumerate(dists) if dd <= npc["r"]]]
+            else:
+                kk = npc["kk"]
+                order = sorted(range(len(dists)), key=lambda i: (dists[i], i))
+                dk = dists[order[kk - 1]]
+                strict = [i for i in range(len(dists)) if dists[i] < dk]
+                tied = [i for i in range(len(dists)) if dists[i] == dk]
+                import itertools
+                need = kk - len(strict)
+                combos = list(itertools.islice(itertools.combinations(tied, need), 40))
+                idx_sets = [sorted(strict + list(cb)) for cb in combos]
+            got = rows[qi]
+            if op["op"] == "pred":
+                if idx_sets == [[]]:
+                    probs = npc.get("probs")
+                    if got not in T.canon(arms):
+                        return "row %d: empty neighbourhood, predicted %r is not an arm" % (qi, got)
+                    if probs and probs[T.canon(arms).index(got)] == 0:
+                        return "row %d: empty neighbourhood, predicted arm %r has probability zero" % (qi, got)
+                continue
+            if idx_sets == [[]]:
+                if not all(isinstance(v, float) and v != v for _, v in got) or [k for k, _ in got] != T.canon(arms):
+                    return "row %d: empty neighbourhood but expectations are %r (expected NaN for every arm)" % (qi, got)
+                continue
+            ok = False
+            exp = None
+            for idx in idx_sets:
+                exp = _fresh_expectations(cfg, arms, [d[i] for i in idx], [r[i] for i in idx], [c[i] for i in idx], q)
+                if T.same(exp, got, 1e-9):
+                    ok = True
+                    break
+            if not ok:
+                return "row %d (query %r): expectations %r differ from the learning policy trained on the %d oracle-selected rows %r: %r" % (
+                    qi, q, got, len(idx_sets[0]), idx_sets[0], exp)
+    return None
+
+
+@twin("lsh_vs_collisions")
+@T.quiet
+def lsh_vs_collisions(scn):
+    """LSHNearest: neighbourhood = stored rows sharing the query's sign pattern in at least one table
+    (planes read from the fitted bandit); scaling a query by c > 0 changes nothing"""
+    cfg = scn["cfg"]
+    T.register_labels(scn)
+    a = S.make_mab(cfg)
+    hist_ops = []
+    for op in scn["ops"]:
+        if op["op"] not in ("pexp", "pred"):
+            T.apply_op(a, op)
+            hist_ops.append(op)
+            continue
+        if not a._is_initial_fit or op["op"] != "pexp":
+            continue
+        d, r, c = _train_rows({"ops": hist_ops})
+        planes = [np.asarray(p, dtype=float) for p in a._imp.table_to_plane.values()]
+        b = copy.deepcopy(a)
+        b2 = copy.deepcopy(a)
+        res = T.apply_op(b, op)
+        if res[0] != "ok":
+            return "query raised %r" % (res,)
+        scale = 4.0
+        res2 = T.apply_op(b2, dict(op, c=[[scale * x for x in row] for row in op["c"]]))
+        if not T.is_linear(cfg) and not T.same(res, res2, 0.0):
+            return "predict_expectations(%g * X) = %r differs from predict_expectations(X) = %r" % (scale, res2, res)
+        rows = res[1] if len(op["c"]) > 1 else [res[1]]
+        arms = list(a.arms)
+        C = np.asarray(c, dtype=float)
+        for qi, q in enumerate(op["c"]):
+            qv = np.asarray(q, dtype=float)
+            idx = set()
+            ambiguous = False
+            for P in planes:
+                pq = qv @ P
+                pc = C @ P
+                if np.any(np.abs(pq) < 1e-9) and np.any(pq != 0):
+                    ambiguous = True
+                sq = pq > 0
+                sc = pc > 0
+                for i in range(len(c)):
+                    if np.array_equal(sc[i], sq):
+                        idx.add(i)
+            if ambiguous:
+                continue
+            idx = sorted(idx)
+            got = rows[qi]
+            if not idx:
+                if not all(isinstance(v, float) and v != v for _, v in got):
+                    return "row %d: no collision but expectations are %r" % (qi, got)
+                continue
+            exp = _fresh_expectations(cfg, arms, [d[i] for i in idx], [r[i] for i in idx], [c[i] for i in idx], q)
+            if not T.same(exp, got, 1e-9):
+                return "row %d (query %r): expectations %r differ from the policy trained on the collision set %r: %r" % (qi, q, got, idx, exp)
+    return None
+
+
+@twin("cells_vs_fresh_policy")
+@T.quiet
+def cells_vs_fresh_policy(scn):
+    """Clusters: policy trained on the rows of the query's k-means cell; TreeBandit: per arm, the
+    statistic over that arm's rewards in the query's leaf of that arm's tree (0 without observations)"""
+    import math
+    cfg = scn["cfg"]
+    npc = cfg["np"]
+    T.register_labels(scn)
+    a = S.make_mab(cfg)
+    hist_ops = []
+    # leaf bookkeeping for trees: rows per arm are assigned when they arrive (tree frozen at first data)
+    for op in scn["ops"]:
+        if op["op"] not in ("pexp", "pred"):
+            T.apply_op(a, op)
+            hist_ops.append(op)
+            continue
+        if not a._is_initial_fit or op["op"] != "pexp":
+            continue
+        d, r, c = _train_rows({"ops": hist_ops}, purge_on_remove=(npc["k"] == "tree"))
+        b = copy.deepcopy(a)
+        res = T.apply_op(b, op)
+        if res[0] != "ok":
+            return "query raised %r" % (res,)
+        rows = res[1] if len(op["c"]) > 1 else [res[1]]
+        arms = list(a.arms)
+        C = np.ascontiguousarray(np.asarray(c, dtype=float))
+        for qi, q in enumerate(op["c"]):
+            got = rows[qi]
+            if npc["k"] == "clusters":
+                km = a._imp.kmeans
+                labels = km.labels_
+                cell = km.predict(np.ascontiguousarray(np.asarray([q], dtype=float)))[0]
+                idx = [i for i in range(len(c)) if labels[i] == cell]
+                exp = _fresh_expectations(cfg, arms, [d[i] for i in idx], [r[i] for i in idx], [c[i] for i in idx], q)
+                if not T.same(exp, got, 1e-9):
+                    return "row %d: expectations %r differ from the policy trained on the %d rows of cluster %d: %r" % (qi, got, len(idx), cell, exp)
+            else:
+                lpk = cfg["lp"]
+                for (arm, val) in got:
+                    armobj = [x for x in arms if T.canon(x) == arm][0]
+                    rows_a = [i for i in range(len(c)) if T.canon(d[i]) == arm]
+                    if not rows_a:
+                        if val != 0:
+                            return "row %d: arm %r has no observations but expectation %r" % (qi, arm, val)
+                        continue
+                    tree = a._imp.arm_to_tree[armobj]
+                    leaf = tree.apply(np.asarray([q], dtype=float))[0]
+                    leaves = tree.apply(C[rows_a])
+                    rs = [float(r[i]) for i, lf in zip(rows_a, leaves) if lf == leaf]
+                    if not rs:
+                        continue
+                    mean = sum(rs) / len(rs)
+                    if lpk["k"] == "greedy":
+                        e = mean
+                    else:
+                        e = mean + lpk["alpha"] * math.sqrt((2 * math.log(len(rs))) / len(rs))
+                    if not T.same(float(e), val, 1e-9):
+                        return "row %d arm %r: expectation %r, but the statistic over the %d rewards in leaf %d is %r" % (qi, arm, val, len(rs), leaf, e)
     return None
